@@ -969,7 +969,9 @@ def remap_by_types(
             if isinstance(t_node.value, ast.Dict):
                 key = t_node.attr
                 key_index = [
-                    e for e, k in enumerate(t_node.value.keys) if k.value == key  # type: ignore
+                    e
+                    for e, k in enumerate(t_node.value.keys)
+                    if isinstance(k, ast.Constant) and k.value == key
                 ]
                 if len(key_index) == 0:
                     if t_node.attr.lower() == "zip":
